@@ -2,7 +2,6 @@ package main
 
 import (
 	"bytes"
-	"io"
 	"net"
 	"sync"
 )
@@ -80,17 +79,73 @@ func (r *Relay) pipe(dst, src net.Conn, rec *bytes.Buffer, fromClient bool) {
 	if tc, ok := dst.(*net.TCPConn); ok {
 		_ = tc.CloseWrite()
 	}
-	if err := error(nil); err == nil {
-		_ = io.EOF
-	}
 }
 
-// Contains reports whether needle occurs in any recorded stream.
+// wsUnmask: a client->server websocket stream is XOR-masked frame by frame with a key that travels
+// in the clear in each frame header (RFC 6455); the observer undoes it.  Returns nil if the stream is
+// not a websocket upgrade.
+func wsUnmask(s []byte) []byte {
+	if !bytes.HasPrefix(s, []byte("GET ")) {
+		return nil
+	}
+	i := bytes.Index(s, []byte("\r\n\r\n"))
+	if i < 0 {
+		return nil
+	}
+	s = s[i+4:]
+	var out []byte
+	for len(s) >= 2 {
+		masked := s[1]&0x80 != 0
+		n := int(s[1] & 0x7f)
+		s = s[2:]
+		switch n {
+		case 126:
+			if len(s) < 2 {
+				return out
+			}
+			n = int(s[0])<<8 | int(s[1])
+			s = s[2:]
+		case 127:
+			if len(s) < 8 {
+				return out
+			}
+			n = 0
+			for k := 0; k < 8; k++ {
+				n = n<<8 | int(s[k])
+			}
+			s = s[8:]
+		}
+		var key []byte
+		if masked {
+			if len(s) < 4 {
+				return out
+			}
+			key, s = s[:4], s[4:]
+		}
+		if n < 0 || n > len(s) {
+			n = len(s)
+		}
+		for k := 0; k < n; k++ {
+			c := s[k]
+			if masked {
+				c ^= key[k%4]
+			}
+			out = append(out, c)
+		}
+		s = s[n:]
+	}
+	return out
+}
+
+// Contains reports whether needle occurs in any recorded stream (or in its unmasked websocket payload).
 func (r *Relay) Contains(needle []byte) bool {
 	r.mu.Lock()
 	defer r.mu.Unlock()
 	for _, s := range r.streams {
 		if bytes.Contains(s.Bytes(), needle) {
+			return true
+		}
+		if u := wsUnmask(s.Bytes()); u != nil && bytes.Contains(u, needle) {
 			return true
 		}
 	}
